@@ -66,7 +66,8 @@ W5 = {"name": "w5", "ignore": "packaged/\n", "package_dir": None, "buildpacks": 
 # nested buildpack directories: the workspace root is itself a (composite) buildpack
 W6 = {"name": "w6", "ignore": "packaged/\n", "package_dir": None, "buildpacks": [
     {"id": "verif/root-meta", "dir": "", "kind": "composite", "deps": ["libcnb:verif/inner"]},
-    {"id": "verif/inner", "dir": "nested/inner", "kind": "libcnb", "pkg": "inner", "bins": ["inner"]},
+    # with a build script, an integration test and an example next to its one binary target: none of them is a buildpack binary
+    {"id": "verif/inner", "dir": "nested/inner", "kind": "libcnb", "pkg": "inner", "bins": ["inner"], "extras": True},
     # its only binary target is not named after the package (src/bin/entry.rs, no src/main.rs): it is the main binary, and nothing else
     {"id": "verif/second", "dir": "nested/second", "kind": "libcnb", "pkg": "second", "bins": ["entry"], "no_main_rs": True},
 ]}
@@ -99,6 +100,12 @@ def generate(ws, root):
                     open(os.path.join(d, "src", "main.rs"), "w").write(body)
                 else:
                     open(os.path.join(d, "src", "bin", f"{b}.rs"), "w").write(body)
+            if bp.get("extras"):
+                open(os.path.join(d, "build.rs"), "w").write("fn main() {}\n")
+                os.makedirs(os.path.join(d, "tests"))
+                open(os.path.join(d, "tests", "it.rs"), "w").write("#[test]\nfn t() {}\n")
+                os.makedirs(os.path.join(d, "examples"))
+                open(os.path.join(d, "examples", "ex.rs"), "w").write("fn main() {}\n")
             if bp.get("deps"):
                 open(os.path.join(d, "package.toml"), "w").write('[buildpack]\nuri = "."\n' + "".join(f'\n[[dependencies]]\nuri = "{dep}"\n' for dep in bp["deps"]))
         elif bp["kind"] == "composite":
@@ -114,8 +121,10 @@ def run_env():
     return e
 
 
-def package_cmd(ws, release, package_dir):
-    cmd = [PACKAGER, "libcnb", "package", "--target", TRIPLE, "--no-cross-compile-assistance"]
+def package_cmd(ws, release, package_dir, assist=False):
+    # assist: without --no-cross-compile-assistance (for this target the packager has no advice and
+    # says so; what it prints on stdout is still exactly the list of directories)
+    cmd = [PACKAGER, "libcnb", "package", "--target", TRIPLE] + ([] if assist else ["--no-cross-compile-assistance"])
     if release:
         cmd.append("--release")
     if package_dir:
@@ -252,9 +261,9 @@ def resolve_pkgdir(ws, root, cwd_rel, pk):
     return os.path.normpath(os.path.join(root, cwd_rel or "", pk))
 
 
-def invoke(ws, root, cwd_rel, release=False, package_dir_arg=None, strace_inject=None, log=None):
+def invoke(ws, root, cwd_rel, release=False, package_dir_arg=None, strace_inject=None, log=None, assist=False):
     cwd = os.path.join(root, cwd_rel) if cwd_rel else root
-    cmd = package_cmd(ws, release, package_dir_arg)
+    cmd = package_cmd(ws, release, package_dir_arg, assist)
     if strace_inject is not None or log:
         pre = ["strace", "-y", "-e", f"trace={SYSCALLS}", "-o", log]
         if strace_inject:
@@ -368,22 +377,41 @@ def seed_foreign(ws, root, pkgdir, kind):
 SEEDS = ["foreign-files-in-every-output-dir", "extra-files", "dir-where-detect-goes", "file-where-bin-goes", "dangling-detect", "old-composite-package-toml"]
 
 
-def family():
-    """composite-only workspaces (nothing to compile): every DAG on three composites x every
+def family(thorough=True):
+    """composite-only workspaces (nothing to compile): every labelled DAG on three composites x every
     assignment of ids (so that the alphabetical order of ids agrees and disagrees with the
     dependency order in every way); one buildpack lives in a directory literally named `target`"""
     dirs = ["buildpacks/target", "meta/x", "meta/deep/y"]
-    edges = [(1, 0), (2, 0), (2, 1)]
+    all_edges = [(i, j) for i in range(3) for j in range(3) if i != j]
+
+    def acyclic(es):
+        # no 2-cycles and no 3-cycles on three nodes
+        s = set(es)
+        if any((j, i) in s for (i, j) in s):
+            return False
+        return not any((a, b) in s and (b, c) in s and (c, a) in s for a, b, c in itertools.permutations(range(3)))
+
+    # every labelled DAG on the three directories (25): a dependency may point with or against the
+    # order in which a directory walk meets the buildpacks, whatever that order is on this file system
+    dags = [es for n in range(len(all_edges) + 1) for es in itertools.combinations(all_edges, n) if acyclic(es)]
     out = []
     # second id set: an id with several slashes whose prefix is another buildpack's id (their output
-    # directory names must stay siblings: acme_tools and acme_tools_one)
-    for mask, ids in itertools.product(range(8), (["acme/a", "acme/b", "acme/c"], ["acme/tools", "acme/tools/one", "zeta"])):
-        for perm in itertools.permutations(ids):
-            bps = []
-            for k in range(3):
-                deps = [f"libcnb:{perm[j]}" for (i, j) in edges if i == k and mask & (1 << edges.index((i, j)))]
-                bps.append({"id": perm[k], "dir": dirs[k], "kind": "composite", "deps": deps + ["docker://docker.io/external/example:1.2.3"]})
-            out.append({"name": f"g{mask}-{'.'.join(x.replace('/', '_') for x in perm)}", "ignore": "packaged/\n", "package_dir": None, "buildpacks": bps})
+    # directory names must stay siblings: acme_tools and acme_tools_one); it runs over the DAGs
+    # whose edges all point to lower directory indices
+    for di, es in enumerate(dags):
+        for ids in (["acme/a", "acme/b", "acme/c"], ["acme/tools", "acme/tools/one", "zeta"]):
+            if ids[0] == "acme/tools" and any(i < j for (i, j) in es):
+                continue
+            perms = list(itertools.permutations(ids))
+            if not thorough and any(i < j for (i, j) in es):
+                # quick: the DAGs with an edge against the directory index order get the identity and the reversed id assignment
+                perms = [perms[0], perms[-1]]
+            for perm in perms:
+                bps = []
+                for k in range(3):
+                    deps = [f"libcnb:{perm[j]}" for (i, j) in es if i == k]
+                    bps.append({"id": perm[k], "dir": dirs[k], "kind": "composite", "deps": deps + ["docker://docker.io/external/example:1.2.3"]})
+                out.append({"name": f"g{di}-{'.'.join(x.replace('/', '_') for x in perm)}", "ignore": "packaged/\n", "package_dir": None, "buildpacks": bps})
     return out
 
 
@@ -394,11 +422,11 @@ def family_job(arg):
     generate(ws, root)
     v = []
     n = 0
-    for cwd_rel in [""] + [bp["dir"] for bp in ws["buildpacks"]]:
+    for cwd_rel, assist in [("", False), ("", True)] + [(bp["dir"], False) for bp in ws["buildpacks"]]:
         shutil.rmtree(pkgdir_of(ws, root), ignore_errors=True)
-        r = invoke(ws, root, cwd_rel)
+        r = invoke(ws, root, cwd_rel, assist=assist)
         n += 1
-        label = f"{ws['name']} {[(bp['id'], bp['dir'], [d for d in bp['deps'] if d.startswith('libcnb:')]) for bp in ws['buildpacks']]} from {cwd_rel or '<root>'}"
+        label = f"{ws['name']} {[(bp['id'], bp['dir'], [d for d in bp['deps'] if d.startswith('libcnb:')]) for bp in ws['buildpacks']]} from {cwd_rel or '<root>'}{' (cross-compile assistance on)' if assist else ''}"
         for sig, what in judge_clean(ws, root, cwd_rel, False, None, r, label):
             v.append((sig, what, {"workspace": ws["name"], "cwd": cwd_rel, "release": False, "package_dir": None}))
     shutil.rmtree(root, ignore_errors=True)
@@ -463,7 +491,7 @@ def run(ctx):
                 res.violation("rerun:" + sig, what, {"workspace": ws["name"], "cwd": cwd_rel, "release": release, "package_dir": pk})
             shutil.rmtree(pkgdir, ignore_errors=True)
     # 1b. the composite-only family, every invocation directory
-    fam = [] if ctx.replay else family()
+    fam = [] if ctx.replay else family(ctx.thorough)
     with ProcessPoolExecutor(max_workers=16) as ex:
         for n, v in ex.map(family_job, [(w, ctx.scratch) for w in fam]):
             evals += n
@@ -481,9 +509,15 @@ def run(ctx):
             log = os.path.join(ctx.scratch, f"{ws['name']}.rec{i}.log")
             r = invoke(ws, root, "", package_dir_arg=ws["package_dir"], log=log)
             if r.returncode != 0:
+                if res.violations:
+                    # the clean runs above already failed and were reported: no crash points to enumerate
+                    logs = None
+                    break
                 raise Machinery(f"recording run of {ws['name']} failed: {r.stderr[-300:]!r}")
             calls, code = parse_log(log, root)
             logs.append([(c[0], c[1], c[2]) for c in calls if c[2] and c[2].startswith("/" + os.path.relpath(pkgdir, root))])
+        if logs is None:
+            continue
         if logs[0] != logs[1]:
             raise Machinery(f"C15: the packager's syscall history for {ws['name']} is not reproducible")
         shutil.rmtree(pkgdir, ignore_errors=True)
@@ -511,7 +545,7 @@ def run(ctx):
     res.cov("workspaces", [w["name"] for w in workspaces])
     res.cov("distinct_outcomes", sorted(outcomes))
     res.cov("determinism_replays", len(crash_ws))
-    res.cov("rule", "generated workspaces of trivial crates (libcnb.rs buildpacks with 1-3 binary targets incl. an ambiguous one, composites with libcnb:/relative/docker/urn dependencies forming a DAG, a non-libcnb buildpack directory, an ignore file for the output directory) packaged by the real cargo-libcnb from the root and from every buildpack directory, dev/release, default/custom/outside package dir, each also re-run over its own output; plus a composite-only family: every DAG on three composite buildpacks x every assignment of three ids (two id sets, one with a multi-slash id whose prefix is another id) (alphabetical id order vs dependency order in every combination; one buildpack in a directory named `target`), from the root and from every buildpack directory; then for the crash workspaces every mutating syscall of the packager under the package directory is a crash point (SIGKILL before the call) followed by a complete second run, plus 5 kinds of foreign pre-seeded content; distinct_nontrivial = crash points + seeds + workspaces")
+    res.cov("rule", "generated workspaces of trivial crates (libcnb.rs buildpacks with 1-3 binary targets incl. an ambiguous one, composites with libcnb:/relative/docker/urn dependencies forming a DAG, a non-libcnb buildpack directory, an ignore file for the output directory) packaged by the real cargo-libcnb from the root and from every buildpack directory, dev/release, default/custom/outside package dir, each also re-run over its own output; plus a composite-only family: every labelled DAG (25) on three composite buildpacks x every assignment of three ids (two id sets, one with a multi-slash id whose prefix is another id) (alphabetical id order vs dependency order in every combination; one buildpack in a directory named `target`), from the root (with and without --no-cross-compile-assistance) and from every buildpack directory; one crate carries a build script, an integration test and an example; then for the crash workspaces every mutating syscall of the packager under the package directory is a crash point (SIGKILL before the call) followed by a complete second run, plus 5 kinds of foreign pre-seeded content; distinct_nontrivial = crash points + seeds + workspaces")
     res.cov("bound", {"first_run_crashes": 1, "target": TRIPLE})
     res.cov("exhaustive", True)
     res.sample({"workspace": W1})
